@@ -239,7 +239,9 @@ func quoteGraphQL(s string, r *rand.Rand) string {
 		case c < 0x20:
 			fmt.Fprintf(&b, `\u%04x`, c)
 		default:
-			if r != nil && c < 0x7f && r.Intn(12) == 0 {
+			// any character may also be written as an escape: the value is the same, but it then reaches the
+			// document WITHOUT having passed the lexer as raw text (DEL, NBSP, BOM, line separators ...)
+			if r != nil && c <= 0xffff && (c < 0x7f && r.Intn(12) == 0 || c >= 0x7f && r.Intn(2) == 0) {
 				fmt.Fprintf(&b, `\u%04X`, c)
 			} else {
 				b.WriteRune(c)
